@@ -3538,9 +3538,13 @@ class QuicConnection:
             )
         )
         previous_send_highest = stream.sender.highest_offset
-        frame = stream.sender.get_frame(
-            builder.remaining_flight_space - frame_overhead, max_offset
-        )
+        max_size = builder.remaining_flight_space - frame_overhead
+        if max_size < 0:
+            # Not even an empty frame fits in the current packet. Leave the
+            # sender untouched, otherwise a lone FIN would be consumed by
+            # `get_frame()` and then dropped when `start_frame()` refuses it.
+            return 0
+        frame = stream.sender.get_frame(max_size, max_offset)
 
         if frame is not None:
             frame_type = QuicFrameType.STREAM_BASE | 2  # length
